@@ -66,13 +66,14 @@ type driver struct {
 	e    *lib.Env
 	self string
 
-	mu       sync.Mutex
-	failures []failure
-	sum      wsummary
-	nontriv  lib.DistinctCounter
-	deaths   int
-	runStats map[string]int
-	others   map[string]int
+	mu          sync.Mutex
+	failures    []failure
+	sum         wsummary
+	nontriv     lib.DistinctCounter
+	deaths      int
+	runStats    map[string]int
+	watchdogIDs []string
+	others      map[string]int
 }
 
 func (d *driver) fail(f failure) {
@@ -182,6 +183,7 @@ func (d *driver) run() {
 	e.Extra("cpu_ms_by_family", d.sum.FamCPUms)
 	e.Extra("worker_deaths", d.deaths)
 	e.Extra("run_after_accept", d.runStats)
+	e.Extra("run_after_accept_watchdog_cases", d.watchdogIDs)
 	e.Extra("run_crashes_not_judged_by_site", d.others)
 	e.Extra("bases", len(bases))
 	e.Assume("Step hooks sit in parser.current() and the lexer main loops; a loop that bypasses both is seen only by the CPU/heap net (CPU time and live heap per case)",
@@ -190,7 +192,7 @@ func (d *driver) run() {
 
 	if dump := os.Getenv("C01_DEV_DUMP"); dump != "" {
 		// development aid: the monitor observations, in case evidence/ is rewritten by someone else
-		b, _ := json.MarshalIndent(map[string]any{"summary": d.sum, "run": d.runStats, "others": d.others, "deaths": d.deaths, "nontriv": d.nontriv.N()}, "", " ")
+		b, _ := json.MarshalIndent(map[string]any{"summary": d.sum, "run": d.runStats, "others": d.others, "watchdog": d.watchdogIDs, "deaths": d.deaths, "nontriv": d.nontriv.N()}, "", " ")
 		_ = os.WriteFile(dump, b, 0o644)
 	}
 	var samples []any
@@ -635,6 +637,11 @@ func (d *driver) runAccepted(bs []base, c cspec) {
 	switch {
 	case r.TimedOut:
 		d.count("skipped_watchdog")
+		d.mu.Lock()
+		if len(d.watchdogIDs) < 8 {
+			d.watchdogIDs = append(d.watchdogIDs, c.ID)
+		}
+		d.mu.Unlock()
 		return
 	case r.Signal == "killed" || r.Signal == "cpu time limit exceeded" || strings.Contains(r.Signal, "CPU"):
 		d.count("skipped_nonterminating")
